@@ -1049,7 +1049,7 @@ def c17_plan(pid, tier, seed, t0):
                 cid, kind = cid + ".big", kind[4:]
             if kind.startswith("names."):
                 cid, kind = cid + ".names", kind[6:]
-            if kind.startswith("deep") or kind.startswith("size") or kind.startswith("shared") or kind.startswith("fsum") or kind.startswith("close"):
+            if kind.startswith("deep") or kind.startswith("size") or kind.startswith("shared") or kind.startswith("fsum") or kind.startswith("close") or kind.startswith("bykey"):
                 pre, _, kind = kind.partition(".")
                 cid = cid + "." + pre
             if c == "n-default":
